@@ -19,6 +19,10 @@
 
 #include "exec.hpp"
 #include "gen.hpp"
+#ifdef SIM_MODE_T
+#include "modet.hpp"
+#include "sched.hpp"
+#endif
 
 #if defined(__has_feature)
 #if __has_feature(address_sanitizer)
@@ -36,6 +40,14 @@ extern "C" __attribute__((used)) const char* __asan_default_options() {
   return "exitcode=77:detect_leaks=1:leak_check_at_exit=0:detect_stack_use_after_return=1:abort_on_error=0:allocator_may_return_null=1:print_summary=1";
 }
 extern "C" __attribute__((used)) const char* __ubsan_default_options() { return "halt_on_error=1:exitcode=77:print_stacktrace=1"; }
+#endif
+
+#if defined(__has_feature)
+#if __has_feature(thread_sanitizer)
+extern "C" __attribute__((used)) const char* __tsan_default_options() {
+  return "suppress_equal_stacks=0:suppress_equal_addresses=0:history_size=7:exitcode=0:halt_on_error=0:report_signal_unsafe=0:report_thread_leaks=0";
+}
+#endif
 #endif
 
 using namespace sim;
@@ -72,11 +84,70 @@ static void write_replay(const std::string& path, const Plan& p, const Violation
   f << plan_to_text(p);
 }
 
+
+#ifdef SIM_MODE_T
+static const char* kBinaryT =
+#if defined(SIM_ASAN)
+    "simTa";
+#else
+    "simT";
+#endif
+
+static void write_replay_t(const std::string& path, const Plan& p, const TResult& R, const std::string& oracle, const std::string& text) {
+  std::ofstream f(path);
+  f << "# trompeloeil deterministic-simulation replay file v1\n";
+  f << "binary " << kBinaryT << "\nprofile threads\nproperty C12\noracle " << oracle << "\nviolation " << one_line(text) << '\n';
+  f << "hash " << std::hex << R.log_hash << std::dec << '\n';
+  Plan q = p; q.schedule = R.schedule;
+  f << plan_to_text(q);
+}
+
+// returns 0 ok, 1 violation; prints the result lines
+static int one_run_t(const Plan& p, const std::string& out, bool is_replay, const char* replay_path) {
+  unsigned long long s = p.seed;
+  TResult R = run_modet(p);
+  if (R.sched_status != SCHED_OK) {
+    const char* what = R.sched_status == SCHED_DEADLOCK ? "deadlock" : R.sched_status == SCHED_SELF_DEADLOCK ? "self_deadlock" : "step_cap";
+    std::string path = replay_path ? replay_path : out + "/seedT-" + std::to_string(s) + ".replay";
+    if (!is_replay) { TResult R2 = R; int buf[SCHED_MAX_DECISIONS]; int n = sched_decisions(buf, SCHED_MAX_DECISIONS); R2.schedule.assign(buf, buf + (n < SCHED_MAX_DECISIONS ? n : SCHED_MAX_DECISIONS)); write_replay_t(path, p, R2, what, std::string(what) + ": no task can run while some are unfinished"); }
+    std::printf("%s %llu C12 %s %s | scheduler status %s after %ld decisions\n", R.sched_status == SCHED_STEP_CAP ? "H" : "V", s, what, path.c_str(), what, sched_stat(0));
+    std::fflush(stdout);
+    _exit(R.sched_status == SCHED_STEP_CAP ? 80 : 3);   // parked threads cannot be joined
+  }
+  int rc = 0;
+  std::string oracle, text;
+  for (auto& r : R.races) if (r.in_library) { oracle = "data_race"; text = r.desc + " in " + r.lib_frame + " || " + r.stacks[0] + " || " + r.stacks[1]; break; }
+  bool harness_race = false;
+  if (oracle.empty()) for (auto& r : R.races) if (!r.in_library) harness_race = true;
+  if (oracle.empty() && R.lin_verdict == 0) { oracle = "linearizability"; text = R.lin_text; }
+  if (!oracle.empty()) {
+    std::string path = replay_path ? replay_path : out + "/seedT-" + std::to_string(s) + ".replay";
+    if (!is_replay) write_replay_t(path, p, R, oracle, text);
+    std::printf("V %llu C12 %s %s | %s\n", s, oracle.c_str(), path.c_str(), one_line(text).c_str());
+    rc = 1;
+  }
+  if (harness_race) { std::printf("H %llu race report without a library frame: %s || %s\n", s, one_line(R.races[0].stacks[0]).c_str(), one_line(R.races[0].stacks[1]).c_str()); }
+  std::printf("RT %llu %016llx %016llx %d %d %ld %ld %ld %ld %ld %ld %ld %ld %ld %d %ld %d\n", s, static_cast<unsigned long long>(R.log_hash), static_cast<unsigned long long>(R.fp_hash),
+              p.cfg.ntasks, R.nops, R.overlapping_pairs, R.decisions, R.switches, R.blocked, R.stalls, R.lock_acqs, R.calls_accepted, R.calls_rejected,
+              R.f_clause_throw + R.f_stall, R.lin_verdict, R.lin_nodes, R.lin_by_hint ? 1 : 0);
+  std::fflush(stdout);
+  return rc;
+}
+#endif
+
 static int do_replay(const char* file, bool verbose) {
   std::ifstream f(file);
   if (!f) { std::fprintf(stderr, "cannot open %s\n", file); return 2; }
   Plan p;
   if (!plan_from_text(f, p)) { std::fprintf(stderr, "malformed replay file %s\n", file); return 2; }
+#ifdef SIM_MODE_T
+  if (p.cfg.mode == 1) {
+    g_inflight = p.seed;
+    std::printf("B %llu\n", static_cast<unsigned long long>(p.seed)); std::fflush(stdout);
+    int rc = one_run_t(p, ".", true, file);
+    return rc;
+  }
+#endif
   globals().verbose = verbose;
   globals().known_multi_monitor_allowed = !(p.cfg.deny_mask & 1);
   globals().known_assign_watched_allowed = !(p.cfg.deny_mask & 2);
@@ -135,6 +206,20 @@ int main(int argc, char** argv) {
     std::fputs(plan_to_text(p).c_str(), stdout);
     return 0;
   }
+#ifdef SIM_MODE_T
+  if (cmd == "planT") { Plan p = gen_plan_t(seed, faults != 0); std::fputs(plan_to_text(p).c_str(), stdout); return 0; }
+  if (cmd == "runT") {
+    long v = 0;
+    for (unsigned long long s = base; s < base + count; ++s) {
+      g_inflight = s;
+      std::printf("B %llu\n", s); std::fflush(stdout);
+      Plan p = gen_plan_t(s, faults != 0);
+      if (samples > 0) { --samples; std::printf("SAMPLE %llu %s\n", s, one_line(plan_to_text(p)).c_str()); }
+      v += one_run_t(p, out, false, nullptr);
+    }
+    return v ? 1 : 0;
+  }
+#endif
   if (cmd != "run") return 2;
   globals().verbose = verbose;
   Stats total;
